@@ -486,6 +486,9 @@ fn hostile_stream() -> BoxedStrategy<(Vec<u8>, &'static str)> {
             (v, "absurd-bulk-length-inside-command")
         }),
         2 => proptest::sample::select(vec![100usize, 1000, 20_000, 200_000]).prop_map(|d| ("*1\r\n".repeat(d).into_bytes(), "deep-nesting")),
+        // the same through every other aggregate type, and mixed: each has its own recursion
+        3 => (proptest::sample::select(vec!["~1\r\n", "%1\r\n", ">1\r\n", "*1\r\n~1\r\n", "~1\r\n%1\r\n*1\r\n", "%1\r\n+k\r\n", "*2\r\n:1\r\n"]), proptest::sample::select(vec![200usize, 5000, 300_000]))
+            .prop_map(|(unit, d)| (unit.repeat(d).into_bytes(), "deep-nesting-other-aggregates")),
         2 => proptest::sample::select(vec![1000usize, 50_000]).prop_map(|d| { let mut v = "*2\r\n$4\r\nECHO\r\n".repeat(d).into_bytes(); v.extend_from_slice(b"$1\r\nx\r\n"); (v, "nested-commands") }),
         3 => (0usize..60).prop_map({ let g = good.clone(); move |cut| { let mut v = g.clone(); v.truncate(cut.min(v.len().saturating_sub(1))); (v, "truncated-then-close") } }),
         2 => proptest::sample::select(vec![1000usize, 100_000]).prop_map(|n| (encode_cmd(&["PING"]).repeat(n), "flood-of-tiny-commands")),
